@@ -288,7 +288,16 @@ impl Executor {
                     Some(Value::from_bytes(&hash.0))
                 })?,
                 OpCode::SigEOk(n) => self.do_triop(|message, public_key, signature| {
+                    // All three operands must be byte strings and the message within its bound, whatever the key looks like:
+                    // answering 0 for an over-long key before looking at the other two operands let a type error or an
+                    // over-long message pass as "signature invalid" instead of failing the execution.
                     let public_key_bytes: CatVec<u8, 256> = public_key.into_bytes()?;
+                    let message_bytes: CatVec<u8, 256> = message.into_bytes()?;
+                    let signature_bytes: CatVec<u8, 256> = signature.into_bytes()?;
+                    log::trace!("GOT TO MSG BYTES {}", message_bytes.len());
+                    if message_bytes.len() > n as usize {
+                        return None;
+                    }
                     if public_key_bytes.len() > 32 {
                         return Some(Value::from_bool(false));
                     }
@@ -296,14 +305,8 @@ impl Executor {
                     let public_key_byte_vector: Vec<u8> = public_key_bytes.into();
                     let public_key: tmelcrypt::Ed25519PK = tmelcrypt::Ed25519PK::from_bytes(&public_key_byte_vector)?;
                     log::trace!("CONV PK");
-                    let message_bytes: CatVec<u8, 256> = message.into_bytes()?;
-                    log::trace!("GOT TO MSG BYTES {}", message_bytes.len());
-                    if message_bytes.len() > n as usize {
-                        return None;
-                    }
 
                     let message_byte_vector: Vec<u8> = message_bytes.into();
-                    let signature_bytes: CatVec<u8, 256> = signature.into_bytes()?;
                     log::trace!("GOT TO SIG BYTES");
 
                     if signature_bytes.len() > 64 {
